@@ -213,7 +213,7 @@ def hid_of(prop, h):
 
 
 # ------------------------------------------------------------------------------------------------
-def run_kani(slot, prop, harnesses, jobs, logdir, extra=(), timeout_pad=120):
+def run_kani(slot, prop, harnesses, jobs, logdir, extra=(), timeout_pad=120, mem_gb=None):
     """one cargo-kani invocation over `harnesses`; returns (json or None, log path, rc)"""
     os.makedirs(logdir, exist_ok=True)
     jpath = os.path.join(logdir, "kani.json")
@@ -233,7 +233,7 @@ def run_kani(slot, prop, harnesses, jobs, logdir, extra=(), timeout_pad=120):
         cmd += ["-j", str(jobs), "--output-format", "terse"]
     for h in harnesses:
         cmd += ["--harness", hid_of(prop, h)]
-    mem_kb = int(prop.get("mem_gb", 12) * 1024 * 1024)
+    mem_kb = int((mem_gb or prop.get("mem_gb", 12)) * 1024 * 1024)
     sh = "ulimit -v %d; exec %s" % (mem_kb, " ".join("'%s'" % c for c in cmd))
     rounds = (len(harnesses) + jobs - 1) // jobs
     wall = 600 + rounds * (tmax + timeout_pad)
@@ -320,8 +320,10 @@ def _norm(t):
 
 def concrete_playback(slot, prop, h, logdir, failed_checks=()):
     """returns dict(reproduced=bool|None, test=src, detail=str)"""
+    # trace generation needs more memory than the verdict run
     data, lpath, rc, dt = run_kani(slot, prop, [h], 1, logdir,
-                                   extra=["-Z", "concrete-playback", "--concrete-playback", "print"])
+                                   extra=["-Z", "concrete-playback", "--concrete-playback", "print"],
+                                   mem_gb=max(28, prop.get("mem_gb", 12)))
     txt = open(lpath, errors="replace").read()
     tests = []
     seen_names = set()
